@@ -30,6 +30,8 @@ def plan(tier, seed):
                    payload=dict(func="vf.pyshim.lemmas:delta_callsites")))
     js.append(dict(name="C03-lemma-v2-inplace", kind="pyfunc", timeout=300,
                    payload=dict(func="vf.pyshim.lemma_v2:v2_inplace")))
+    from . import bytearray as BA
+    js += BA.jobs("C03", tier, which=("h_unpack",))
     try:
         from . import pageloop
         js += pageloop.jobs("C03", tier, seed)
